@@ -290,3 +290,13 @@ Proof.
   destruct (find_tag (f_world_mem w) info mb_tagFramebufferInfo) as [[cur size]| | |]; try reflexivity.
   cbn [find_conv]. destruct (size =? 0); reflexivity.
 Qed.
+
+(** a decision procedure for [mem_bytes] (examples) *)
+Definition mem_bytes_b (m : mem) : bool := forallb (fun s => forallb (fun b => b <? 256) (s_data s)) m.
+
+Lemma mem_bytes_b_ok m : mem_bytes_b m = true -> mem_bytes m.
+Proof.
+  unfold mem_bytes_b, mem_bytes, byte_list. intros H. apply Forall_forall. intros s Hs.
+  rewrite forallb_forall in H. specialize (H s Hs). rewrite forallb_forall in H.
+  apply Forall_forall. intros b Hb. apply N.ltb_lt. exact (H b Hb).
+Qed.
